@@ -135,6 +135,13 @@ pub fn run_campaign(c: &Campaign, seed: u64, tag: &str) -> Outcome {
             cf.max_memtable_size = cf.max_memtable_size.max(cfg0.max_memtable_size);
             (c.tweak)(&mut cf, &mut vr);
             cf.versioning = cfg0.versioning;
+            cf.retention = cfg0.retention;
+            if c.ver == VerMode::On {
+                // twin back-ends: the variants of one logical history alternate the version index
+                cf.index = if v % 2 == 1 { !cfg0.index } else { cfg0.index };
+            } else if c.ver == VerMode::OnIndex {
+                cf.index = true;
+            }
             let st = reweave(&base, &mut vr.fork(3), &c.gen);
             (cf, st)
         };
